@@ -601,15 +601,16 @@ func runC06(c *Ctx) {
 				if !ok || builtinName(&call.Call) != "len" {
 					continue
 				}
-				if header != nil && sameValue(call.Call.Args[0], header) {
+				if header != nil && sameValueModNil(call.Call.Args[0], header) {
 					hk = k
 				}
-				if payload != nil && sameValue(call.Call.Args[0], payload) {
+				if payload != nil && sameValueModNil(call.Call.Args[0], payload) {
 					pk = k
 				}
 			}
 			c.check(len(t.coef) == 2 && t.c == -4 && hk != "" && pk != "" && hk != pk && t.coef[hk] == 1 && t.coef[pk] == 1, "R3", "sendPacket length value", pos(put), "len(header)+len(payload)-4", "the length prefix is "+t.String()+", not len(header)+len(payload)-4")
-			okW := len(writes) == 2 && header != nil && sameValue(writes[0].Call.Args[0], header) && !sameValue(writes[1].Call.Args[0], header) && dominates(writes[0], writes[1]) && dominates(put, writes[0])
+			okW := len(writes) == 2 && header != nil && sameValueModNil(writes[0].Call.Args[0], header) && !sameValueModNil(writes[1].Call.Args[0], header) && dominates(writes[0], writes[1]) &&
+				!reachAvoiding(sp, nil, func(x ssa.Instruction) bool { return x == ssa.Instruction(writes[0]) }, func(x ssa.Instruction) bool { return x == ssa.Instruction(put) })
 			c.check(okW, "R3", "sendPacket writes header then payload", p.Pos(sp.Pos()), "Write(header); Write(payload) after the prefix is set", "header and payload are not written in this order after the prefix was filled in")
 			// both come out of the packet's marshaller
 			fromMarshal := func(v ssa.Value) bool {
